@@ -12,7 +12,7 @@ LEVEL = 'fault_enumeration'
 RULE = (
     'Generated buses (serial and parallel_handlers) with wal_path (fresh temp dir per case), raising handlers, nested and forwarded events with payloads from a '
     'recursive strategy (unicode incl. U+2028/U+0085/emoji/quotes/newlines, nested containers, datetimes, extra '
-    'fields), virtual I/O latency, and a fault plan: the j-th off-loaded I/O call (open/write/close) raises OSError '
+    'fields, and occasionally a lone surrogate that cannot be serialised at all), virtual I/O latency, and a fault plan: the j-th off-loaded I/O call (open/write/close) raises OSError / ValueError / RuntimeError / UnicodeEncodeError '
     '(quick: drawn j; thorough: additionally every j of a pilot run for base scenarios), or the parent of the path is a '
     'file, or the path is a directory. Oracle without faults: per bus exactly one line per processed event, in the '
     'order the handlers of that bus finished, each written after the last handler exit, each a JSON object that '
@@ -40,6 +40,8 @@ def _payload(draw):
         p['xtra'] = draw(_json)
     if draw(st.integers(0, 3)) == 0:
         p['x_y'] = draw(st.lists(st.integers(0, 3), max_size=2))
+    if draw(st.integers(0, 24)) == 0:
+        p['txt'] = 'a\ud800b'  # a lone surrogate: the event cannot be serialised to JSON, the WAL write of it must fail harmlessly
     return p
 
 
@@ -75,7 +77,7 @@ def _case(draw):
     kind = draw(st.sampled_from([None, None, 'oserror', 'oserror', 'parent_is_file', 'path_is_dir']))
     wal = {'lat': draw(st.sampled_from([0, 0.01, 0.05]))}
     if kind == 'oserror':
-        wal.update(fault_kind='oserror', fault=draw(st.integers(0, 30)))
+        wal.update(fault_kind='oserror', fault=draw(st.integers(0, 30)), fault_exc=draw(st.sampled_from(['OSError', 'OSError', 'ValueError', 'RuntimeError', 'UnicodeEncodeError'])))
     elif kind:
         wal.update(fault_kind=kind, fault_bus=draw(st.sampled_from([i for i, b in enumerate(sc['buses']) if b['wal']])))
     sc['wal'] = wal
@@ -118,18 +120,22 @@ def run_case(sc):
     tr = out['trace']
     hang = out.get('hang')
     cfg = sc['wal']
+    # events whose payload cannot be serialised (lone surrogate): every WAL bus that processes them logs an error and writes no line
+    bad_pl = {i for i, p in enumerate(sc.get('payloads') or []) if isinstance(p.get('txt'), str) and '\ud800' in p['txt']}
+    unserial = {int(t) for t, pi in (out.get('payload_of') or {}).items() if pi in bad_pl}
     faults = wal.get('faults') or []
     persistent = cfg.get('fault_kind') in ('parent_is_file', 'path_is_dir')
     cl = ['fault:' + str(cfg.get('fault_kind')), f'lat={cfg.get("lat")}']
     total_lines = 0
     nested_or_fwd = False
+    unserial_pairs = []
     if hang:
         viol.append(('C17.d', f'run did not reach quiescence: {hang}'))
     # processing order per bus = order in which the handlers of that bus finished for each event
     for bi, b in enumerate(sc['buses']):
         if not b.get('wal'):
             continue
-        name = f'B{bi}'
+        name = F.bname[bi]
         entry = (wal.get('buses') or {}).get(name, {'lines': [], 'path_exists': False})
         lines = entry['lines']
         total_lines += len(lines)
@@ -142,6 +148,9 @@ def run_case(sc):
             if exp and len(ex) >= len(exp):
                 finished.append((max(ex), ev))
         finished.sort()
+        n_unserial = len([ev for _i, ev in finished if ev in unserial])
+        unserial_pairs.append(0 if (persistent and cfg.get('fault_bus') == bi) else n_unserial)  # (a persistently failing bus is counted below)
+        finished = [(i, ev) for i, ev in finished if ev not in unserial]  # no line can be written for them
         order = [ev for _i, ev in finished]
         last_exit = {ev: i for i, ev in finished}
         ids = [ln.get('ev') for ln in lines]
@@ -199,7 +208,7 @@ def run_case(sc):
         # some bus must have finished all its handlers for this event before this write and not yet have a write accounted
         ok = False
         for (bb, e), idxs in F.enq.items():
-            if e != ev or not sc['buses'][int(bb[1:])].get('wal'):
+            if e != ev or not sc['buses'][F.bidx[bb]].get('wal'):
                 continue
             exp = F.expected(bb, ev)
             ex = [x for hi in exp for x in F.exits.get((bb, ev, hi), [])]
@@ -220,20 +229,24 @@ def run_case(sc):
         nfail = len(faults)
         if persistent:
             bi = cfg.get('fault_bus')
-            nfail = len({ev for (bb, ev) in F.enq if bb == f'B{bi}'})
+            nfail = len({ev for (bb, ev) in F.enq if bb == F.bname[bi]})
         nraise = sum(1 for r in tr if r['k'] == 'exit' and r['how'] == 'raise')  # every raising handler is logged at ERROR too
+        nfail += sum(unserial_pairs)  # one failed (unserialisable) write per WAL bus that processed such an event
         if wal.get('errors_logged', 0) < nfail + nraise:
             viol.append(('C17.d', f'{nfail} WAL write(s) failed (and {nraise} handlers raised) but only {wal.get("errors_logged", 0)} ERROR record(s) were logged'))
-        if not faults and not persistent and wal.get('errors_logged', 0) > nraise:
+        if not faults and not persistent and wal.get('errors_logged', 0) > nraise + sum(unserial_pairs):
             viol.append(('C17.d', f'{wal.get("errors_logged")} ERROR record(s) logged although no fault was injected and only {nraise} handlers raised'))
     if faults:
         cl.append('fault-fired:' + faults[0]['op'])
+        cl.append('fault-exc:' + str(cfg.get('fault_exc', 'OSError')))
+    if sum(unserial_pairs):
+        cl.append('unserialisable-payload')
     if persistent:
         cl.append('fault-fired:persistent')
     cl.append('lines:' + ('0' if total_lines == 0 else '1' if total_lines == 1 else '2-5' if total_lines <= 5 else '6+'))
     if nested_or_fwd:
         cl.append('nested-or-forwarded-line')
-    nontrivial = (total_lines >= 2 and nested_or_fwd) or bool(faults) or (persistent and bool(F.enq))
+    nontrivial = (total_lines >= 2 and nested_or_fwd) or bool(faults) or (persistent and bool(F.enq)) or bool(sum(unserial_pairs))
     # keep first violation per clause
     seen, outv = set(), []
     for v in viol:
